@@ -33,9 +33,10 @@ def parse_result(impl, nwidths):
 
 class C12(Spec):
     pid = "C12"
-    groups = ["vrender"]
+    groups = ["vrender", "vpub"]
     title = "The number shown next to a link opens exactly that link"
     oracle_filter = {"wf_out"}
+    no_compare_ops = ("item",)
     rule = ("documents from the HTML grammar (anchors with unique label texts L<n> and unique targets, nested anchors, a>img, "
             "a>b>img, media with/without src and alt, anchors without href), the same kinds of links in Markdown, gemtext link lines "
             "and plain-text URLs, rendered at widths 200/80/30/7. Oracle on the IMPLEMENTATION's output: the superscript printed "
@@ -64,12 +65,27 @@ class C12(Spec):
                              [200, 80], {"labels": [("L9", "https://c.example/")]}),
                  render_case(1, '<a href="https://o.example/">outer <a href="https://i.example/">L3</a> tail</a>', [200], {"labels": [("L3", "https://i.example/")]})]
         cases += self.gen(rng, 300 if tier == "quick" else 40000)
-        return [Batch("c12", cases, correspondence="Markup.Render + links == render_full")]
+        # posts and profiles: body links plus attachments, numbers shown in String versus SelectLink
+        import asgen
+        import c06
+        items = []
+        items.append(c06.item_case({"type": "Note", "content": "<a href=\"https://b.example/1\">body</a>", "attachment": [
+            {"type": "Image", "name": 5, "url": "https://a.example/1.png"}, {"type": "Image", "name": "second", "url": "https://a.example/2.png"}]}, 0, [200], list(range(-1, 8))))
+        for _ in range(200 if tier == "quick" else 20000):
+            body, labels = docgen.html_doc(rng, hostile=0.0, depth=rng.choice((1, 2)), with_labels=True)
+            doc = {"type": rng.choice(["Note", "Article", "Person"]), "content": body, "summary": body,
+                   "attachment": [asgen.link(rng) for _ in range(rng.randint(0, 4))]}
+            ctor = 1 if doc["type"] == "Person" else 0
+            items.append(c06.item_case(doc, ctor, [200], list(range(-2, 30))))
+        return [Batch("c12", cases, correspondence="Markup.Render + links == render_full"),
+                Batch("c12-items", items, env={"VERIF_CASE_TIMEOUT": "20"}, correspondence="numbers shown by String == numbers SelectLink accepts")]
 
     def search_batches(self, rng, tier):
         return [Batch("c12-search", self.gen(rng, 5000))]
 
     def post_check(self, case, res):
+        if case.op == "item":
+            return self.item_check(case, res)
         links, outs = parse_result(res["impl"], len(case.meta["widths"]))
         if links is None:
             return None
@@ -92,7 +108,42 @@ class C12(Spec):
                 return "numbers shown %r are not exactly 1..%d" % (sorted(shown)[:20], n)
         return None
 
+    def item_check(self, case, res):
+        t = res["impl"]
+        if not t or t[0] != 0 or len(case.meta["json"]) >= 4000:
+            return None
+        try:
+            import json as _json
+            decoded = _json.dumps(_json.loads(case.meta["json"]), ensure_ascii=False)
+        except ValueError:
+            return None
+        if re.search("[⁰¹²³⁴⁵⁶⁷⁸⁹]", decoded):
+            return None
+        i = 3
+        texts = []
+        for _ in range(t[2]):
+            n = t[i]
+            texts.append("".join(map(chr, t[i + 1:i + 1 + n])))
+            i += 1 + n
+        if len(texts) < 2:
+            return None
+        plain = SGR.sub("", texts[1])
+        shown = sorted(int("".join(SUP[c] for c in m)) for m in re.findall("[⁰¹²³⁴⁵⁶⁷⁸⁹]+", plain))
+        if shown != list(range(1, len(shown) + 1)):
+            return "numbers shown in the full text are %r: not 1..N without repeats or gaps" % shown[:20]
+        ns = t[i]
+        i += 1
+        for _ in range(ns):
+            k, present = t[i], t[i + 1]
+            n = t[i + 2]
+            i += 3 + n
+            if present and not (1 <= k <= len(shown)):
+                return "number %d opens a link although only 1..%d are shown" % (k, len(shown))
+        return None
+
     def nontrivial(self, case, res):
+        if case.op == "item":
+            return True
         links, _ = parse_result(res["impl"], len(case.meta["widths"]))
         return links is not None and len(links) >= 2
 
